@@ -127,6 +127,186 @@ theorem encode_length_pos (r : Nat) : 1 ≤ (encodeRune r).length := by
   unfold encodeRune; repeat' split
   all_goals simp
 
+/-! ## the decoder looks only at the bytes of the rune it returns -/
+
+/-- `decodeRune` on a non-empty input as a function of its first four bytes, missing bytes read as 0
+(0 is not a continuation byte, so a missing byte and a wrong byte have the same effect) -/
+def dec (b0 b1 b2 b3 : Nat) : Nat × Nat :=
+  if b0 < 0x80 then (b0, 1)
+  else if b0 < 0xC2 then (0xFFFD, 1)
+  else if b0 < 0xE0 then
+    if cont b1 then ((b0 - 0xC0) * 64 + (b1 - 0x80), 2) else (0xFFFD, 1)
+  else if b0 < 0xF0 then
+    if (if b0 = 0xE0 then 0xA0 else 0x80) ≤ b1 && b1 ≤ (if b0 = 0xED then 0x9F else 0xBF) && cont b2 then
+      ((b0 - 0xE0) * 4096 + (b1 - 0x80) * 64 + (b2 - 0x80), 3) else (0xFFFD, 1)
+  else if b0 < 0xF5 then
+    if (if b0 = 0xF0 then 0x90 else 0x80) ≤ b1 && b1 ≤ (if b0 = 0xF4 then 0x8F else 0xBF) && cont b2 && cont b3 then
+      ((b0 - 0xF0) * 262144 + (b1 - 0x80) * 4096 + (b2 - 0x80) * 64 + (b3 - 0x80), 4)
+    else (0xFFFD, 1)
+  else (0xFFFD, 1)
+
+theorem cont_zero : cont 0 = false := rfl
+theorem lo3_pos (b0 : Nat) : decide ((if b0 = 0xE0 then 0xA0 else 0x80) ≤ 0) = false := by split <;> simp
+theorem lo4_pos (b0 : Nat) : decide ((if b0 = 0xF0 then 0x90 else 0x80) ≤ 0) = false := by split <;> simp
+
+theorem decode_eq_dec (b0 : Nat) (rest : List Nat) :
+    decodeRune (b0 :: rest) = dec b0 (rest.getD 0 0) (rest.getD 1 0) (rest.getD 2 0) := by
+  rcases rest with _ | ⟨b1, _ | ⟨b2, _ | ⟨b3, r⟩⟩⟩
+  · show decodeRune [b0] = dec b0 0 0 0
+    unfold dec; dsimp only [decodeRune]
+    by_cases h1 : b0 < 0x80
+    · rw [if_pos h1, if_pos h1]
+    · rw [if_neg h1, if_neg h1]
+      by_cases h2 : b0 < 0xC2
+      · rw [if_pos h2, if_pos h2]
+      · rw [if_neg h2, if_neg h2]
+        by_cases h3 : b0 < 0xE0
+        · rw [if_pos h3, if_pos h3]; rfl
+        · rw [if_neg h3, if_neg h3]
+          by_cases h4 : b0 < 0xF0
+          · rw [if_pos h4, if_pos h4]
+            simp only [lo3_pos, Bool.false_and, Bool.false_eq_true, if_false]
+          · rw [if_neg h4, if_neg h4]
+            by_cases h5 : b0 < 0xF5
+            · rw [if_pos h5, if_pos h5]
+              simp only [lo4_pos, Bool.false_and, Bool.false_eq_true, if_false]
+            · rw [if_neg h5, if_neg h5]
+  · show decodeRune [b0, b1] = dec b0 b1 0 0
+    unfold dec; dsimp only [decodeRune]
+    by_cases h1 : b0 < 0x80
+    · rw [if_pos h1, if_pos h1]
+    · rw [if_neg h1, if_neg h1]
+      by_cases h2 : b0 < 0xC2
+      · rw [if_pos h2, if_pos h2]
+      · rw [if_neg h2, if_neg h2]
+        by_cases h3 : b0 < 0xE0
+        · rw [if_pos h3, if_pos h3]
+        · rw [if_neg h3, if_neg h3]
+          by_cases h4 : b0 < 0xF0
+          · rw [if_pos h4, if_pos h4]
+            simp only [cont_zero, Bool.and_false, Bool.false_eq_true, if_false]
+          · rw [if_neg h4, if_neg h4]
+            by_cases h5 : b0 < 0xF5
+            · rw [if_pos h5, if_pos h5]
+              simp only [cont_zero, Bool.and_false, Bool.false_eq_true, if_false]
+            · rw [if_neg h5, if_neg h5]
+  · show decodeRune [b0, b1, b2] = dec b0 b1 b2 0
+    unfold dec; dsimp only [decodeRune]
+    by_cases h1 : b0 < 0x80
+    · rw [if_pos h1, if_pos h1]
+    · rw [if_neg h1, if_neg h1]
+      by_cases h2 : b0 < 0xC2
+      · rw [if_pos h2, if_pos h2]
+      · rw [if_neg h2, if_neg h2]
+        by_cases h3 : b0 < 0xE0
+        · rw [if_pos h3, if_pos h3]
+        · rw [if_neg h3, if_neg h3]
+          by_cases h4 : b0 < 0xF0
+          · rw [if_pos h4, if_pos h4]
+          · rw [if_neg h4, if_neg h4]
+            by_cases h5 : b0 < 0xF5
+            · rw [if_pos h5, if_pos h5]
+              simp only [cont_zero, Bool.and_false, Bool.false_eq_true, if_false]
+            · rw [if_neg h5, if_neg h5]
+  · rfl
+
+theorem ite_size (c : Bool) (v : Nat × Nat) (k : Nat) (hv : k < v.2) (h : (if c = true then v else (0xFFFD, 1)).2 ≤ k) :
+    (if c = true then v else ((0xFFFD, 1) : Nat × Nat)) = (0xFFFD, 1) := by
+  cases c
+  · rfl
+  · simp only [if_true] at h; omega
+
+/-- the result does not depend on bytes beyond the returned size -/
+theorem dec_indep1 (b0 b1 b2 b3 : Nat) (h : (dec b0 b1 b2 b3).2 ≤ 1) : dec b0 b1 b2 b3 = dec b0 0 0 0 := by
+  unfold dec at h ⊢
+  by_cases h1 : b0 < 0x80
+  · rw [if_pos h1]; rw [if_pos h1]
+  · rw [if_neg h1] at h ⊢; rw [if_neg h1]
+    by_cases h2 : b0 < 0xC2
+    · rw [if_pos h2]; rw [if_pos h2]
+    · rw [if_neg h2] at h ⊢; rw [if_neg h2]
+      by_cases h3 : b0 < 0xE0
+      · rw [if_pos h3] at h ⊢; rw [if_pos h3]
+        simp only [cont_zero, Bool.false_eq_true, if_false]
+        exact ite_size _ _ 1 (by simp) h
+      · rw [if_neg h3] at h ⊢; rw [if_neg h3]
+        by_cases h4 : b0 < 0xF0
+        · rw [if_pos h4] at h ⊢; rw [if_pos h4]
+          simp only [lo3_pos, Bool.false_and, Bool.false_eq_true, if_false]
+          exact ite_size _ _ 1 (by simp) h
+        · rw [if_neg h4] at h ⊢; rw [if_neg h4]
+          by_cases h5 : b0 < 0xF5
+          · rw [if_pos h5] at h ⊢; rw [if_pos h5]
+            simp only [lo4_pos, Bool.false_and, Bool.false_eq_true, if_false]
+            exact ite_size _ _ 1 (by simp) h
+          · rw [if_neg h5]; rw [if_neg h5]
+
+theorem dec_indep2 (b0 b1 b2 b3 : Nat) (h : (dec b0 b1 b2 b3).2 ≤ 2) : dec b0 b1 b2 b3 = dec b0 b1 0 0 := by
+  unfold dec at h ⊢
+  by_cases h1 : b0 < 0x80
+  · rw [if_pos h1]; rw [if_pos h1]
+  · rw [if_neg h1] at h ⊢; rw [if_neg h1]
+    by_cases h2 : b0 < 0xC2
+    · rw [if_pos h2]; rw [if_pos h2]
+    · rw [if_neg h2] at h ⊢; rw [if_neg h2]
+      by_cases h3 : b0 < 0xE0
+      · rw [if_pos h3]; rw [if_pos h3]
+      · rw [if_neg h3] at h ⊢; rw [if_neg h3]
+        by_cases h4 : b0 < 0xF0
+        · rw [if_pos h4] at h ⊢; rw [if_pos h4]
+          simp only [cont_zero, Bool.and_false, Bool.false_eq_true, if_false]
+          exact ite_size _ _ 2 (by simp) h
+        · rw [if_neg h4] at h ⊢; rw [if_neg h4]
+          by_cases h5 : b0 < 0xF5
+          · rw [if_pos h5] at h ⊢; rw [if_pos h5]
+            simp only [cont_zero, Bool.and_false, Bool.false_eq_true, if_false]
+            exact ite_size _ _ 2 (by simp) h
+          · rw [if_neg h5]; rw [if_neg h5]
+
+theorem dec_indep3 (b0 b1 b2 b3 : Nat) (h : (dec b0 b1 b2 b3).2 ≤ 3) : dec b0 b1 b2 b3 = dec b0 b1 b2 0 := by
+  unfold dec at h ⊢
+  by_cases h1 : b0 < 0x80
+  · rw [if_pos h1]; rw [if_pos h1]
+  · rw [if_neg h1] at h ⊢; rw [if_neg h1]
+    by_cases h2 : b0 < 0xC2
+    · rw [if_pos h2]; rw [if_pos h2]
+    · rw [if_neg h2] at h ⊢; rw [if_neg h2]
+      by_cases h3 : b0 < 0xE0
+      · rw [if_pos h3]; rw [if_pos h3]
+      · rw [if_neg h3] at h ⊢; rw [if_neg h3]
+        by_cases h4 : b0 < 0xF0
+        · rw [if_pos h4]; rw [if_pos h4]
+        · rw [if_neg h4] at h ⊢; rw [if_neg h4]
+          by_cases h5 : b0 < 0xF5
+          · rw [if_pos h5] at h ⊢; rw [if_pos h5]
+            simp only [cont_zero, Bool.and_false, Bool.false_eq_true, if_false]
+            exact ite_size _ _ 3 (by simp) h
+          · rw [if_neg h5]; rw [if_neg h5]
+
+/-- **the decoder looks only at the bytes of the rune it returns**: if the rune decoded from
+`x ++ y` ends inside `x`, decoding `x` alone gives the same rune -/
+theorem decode_prefix (x y : List Nat) (hx : x ≠ []) (h : (decodeRune (x ++ y)).2 ≤ x.length) :
+    decodeRune x = decodeRune (x ++ y) := by
+  rcases x with _ | ⟨b0, _ | ⟨b1, _ | ⟨b2, _ | ⟨b3, x4⟩⟩⟩⟩
+  · exact absurd rfl hx
+  · simp only [List.cons_append, List.nil_append, List.length_cons, List.length_nil] at h ⊢
+    rw [decode_eq_dec] at h ⊢
+    rw [decode_eq_dec, dec_indep1 _ _ _ _ h]; rfl
+  · simp only [List.cons_append, List.nil_append, List.length_cons, List.length_nil] at h ⊢
+    rw [decode_eq_dec] at h ⊢
+    rw [decode_eq_dec]
+    simp only [List.getD_cons_zero, List.getD_cons_succ, List.getD_nil] at h ⊢
+    rw [dec_indep2 _ _ _ _ h]
+  · simp only [List.cons_append, List.nil_append, List.length_cons, List.length_nil] at h ⊢
+    rw [decode_eq_dec] at h ⊢
+    rw [decode_eq_dec]
+    simp only [List.getD_cons_zero, List.getD_cons_succ, List.getD_nil] at h ⊢
+    rw [dec_indep3 _ _ _ _ h]
+  · simp only [List.cons_append]
+    rw [decode_eq_dec, decode_eq_dec]
+    simp only [List.getD_cons_zero, List.getD_cons_succ]
+
+
 /-- The decoded runes of a byte string, each with its size, obtained by iterating `decodeRune`
 exactly as the Go loops do (`r, l := utf8.DecodeRune(b[length:]); length += l`). -/
 def runesOf (b : List Nat) : List (Nat × Nat) :=
